@@ -27,6 +27,7 @@ import (
 
 const hookImport = "github.com/willabides/rjson/verifhook"
 const vsyncImport = "github.com/willabides/rjson/verifhook/vsync"
+const vatomicImport = "github.com/willabides/rjson/verifhook/vatomic"
 
 type report struct {
 	Mode      string         `json:"mode"`
@@ -62,6 +63,9 @@ func main() {
 		replace[filepath.Join(*repo, "verifhook", "sched.go")] = filepath.Join(*hooks, "verifhook", "sched.go")
 	}
 	replace[filepath.Join(*repo, "verifhook", "vsync", "vsync.go")] = filepath.Join(*hooks, "vsync", "vsync.go")
+	if _, err := os.Stat(filepath.Join(*hooks, "vatomic", "vatomic.go")); err == nil {
+		replace[filepath.Join(*repo, "verifhook", "vatomic", "vatomic.go")] = filepath.Join(*hooks, "vatomic", "vatomic.go")
+	}
 
 	if *mode == "full" {
 		dirs := []string{*repo, filepath.Join(*repo, "internal", "fp")}
@@ -176,6 +180,15 @@ func instrumentDir(dir, out string, replace map[string]string, rep *report, pvar
 				im.Path.Value = strconv.Quote(vsyncImport)
 				if im.Name == nil {
 					im.Name = ast.NewIdent("sync")
+				}
+				changed = true
+				rep.SyncFiles = append(rep.SyncFiles, x.path)
+			}
+			// atomic operations become scheduling points too
+			if im.Path.Value == `"sync/atomic"` {
+				im.Path.Value = strconv.Quote(vatomicImport)
+				if im.Name == nil {
+					im.Name = ast.NewIdent("atomic")
 				}
 				changed = true
 				rep.SyncFiles = append(rep.SyncFiles, x.path)
